@@ -131,6 +131,33 @@ def search(ctx, n_theta, n_pts):
             except Exception as ex:
                 hit(f'search:exception:{fam}:{type(ex).__name__}', f'{fam} theta={th}: raised {type(ex).__name__}: {ex}',
                     {'family': fam, 'theta': th, 'error': repr(ex), 'repro': repro(fam, th, [(0.3, 0.7)], 'probability_density')})
+    # Frank next to the independence member: for 0 < |theta| <= 1e-6 (valid parameters) the first-order expansions
+    # h = u + theta u(1-u)(1-2v)/2 + O(theta^2), c = 1 + theta (1-2u)(1-2v)/2 + O(theta^2), C = uv + O(theta) bound the distance to
+    # (u, 1, uv) by |theta|; the implementation's own rounding there is below 3e-7 (measured 2.5e-8).  Finite differences are useless at
+    # this scale (C carries 3e-9 absolute rounding), so the limit itself is the oracle.
+    for th in (5e-8, -5e-8, 1e-6, -1e-6, 3e-10):
+        c = implbiv.make('frank', th)
+        u = rng.uniform(1e-3, 1 - 1e-3, n_pts)
+        v = rng.uniform(1e-3, 1 - 1e-3, n_pts)
+        X = np.column_stack([u, v])
+        try:
+            with np.errstate(all='ignore'):
+                H = np.asarray(c.partial_derivative(X), dtype=float)
+                D = np.asarray(c.probability_density(X), dtype=float)
+                L = np.asarray(c.log_probability_density(X), dtype=float)
+            for meth, got, want, tol in (('partial_derivative', H, u, 1e-5), ('probability_density', D, np.ones_like(u), 1e-4),
+                                         ('log_probability_density', L, np.zeros_like(u), 1e-4)):
+                err = np.abs(got - want)
+                err[~np.isfinite(got)] = np.inf
+                i = int(np.argmax(err))
+                if err[i] > tol:
+                    hit(f'search:frank-near-independence:{meth}', f'frank theta={th!r}: {meth}({u[i]!r},{v[i]!r}) = {got[i]!r}, but within |theta| of the '
+                        f'independence copula the value is {want[i]!r} up to {tol}',
+                        {'family': 'frank', 'theta': th, 'u': u[i], 'v': v[i], 'value': got[i], 'repro': repro('frank', th, [(u[i], v[i])], meth)})
+        except Exception as ex:
+            hit(f'search:exception:frank:{type(ex).__name__}', f'frank theta={th}: raised {type(ex).__name__}: {ex}',
+                {'family': 'frank', 'theta': th, 'error': repr(ex), 'repro': repro('frank', th, [(0.3, 0.7)], 'probability_density')})
+        ctx.case(f'search:frank-near-independence:{th}', None)
     # history oracle: an instance whose theta is changed between evaluations must behave like a fresh one
     for fam in FAMS:
         for it in range(4):
